@@ -188,7 +188,31 @@ def shapes(tier):
             text = f"M DEFINITIONS AUTOMATIC TAGS ::= BEGIN {tn} ::= {ty} va {tn} ::= {val} END"
             out.append((f"C10 value of the referenced type {'<single letter>' if len(tn) == 1 else '<all capitals>' if tn.isupper() and tn.isalpha() else '<mixed>'} ::= {ty.split('{')[0].strip()}", text,
                         {'keep': [tn, 'va'], 'replaced': [], 'base': None, 'kinds': ()}))
+    # definitions spelled like a name that another notation introduces LOCALLY (dummy reference of a template, named number,
+    # enumeral, component identifier): the local name must not make the module-level definition disappear
+    for label, defs, keep in LOCAL_NAME_CLASHES:
+        for rev in (False, True):
+            ds = list(reversed(defs)) if rev else defs
+            text = f"M DEFINITIONS AUTOMATIC TAGS ::= BEGIN {' '.join(ds)} END"
+            out.append((f"C10 definition spelled like {label}{' (reversed)' if rev else ''}", text, {'keep': keep, 'replaced': [], 'base': None, 'kinds': ()}))
     return out
+
+
+LOCAL_NAME_CLASHES = [
+    ("a dummy value reference", ["Bounded {INTEGER: limit} ::= INTEGER (0..limit)", "limit INTEGER ::= 7", "Small ::= Bounded {300}", "Other ::= BOOLEAN"], ['limit', 'Small', 'Other']),
+    ("a dummy value reference of an unused template", ["Bounded {INTEGER: limit} ::= INTEGER (0..limit)", "limit INTEGER ::= 7", "Other ::= BOOLEAN"], ['limit', 'Other']),
+    ("a dummy type reference <template sorts later>", ["Wrapper {Item} ::= SEQUENCE { x Item }", "Item ::= OCTET STRING", "Wrapped ::= Wrapper {BOOLEAN}"], ['Item', 'Wrapped']),
+    ("a dummy type reference <template sorts earlier>", ["Aw {Item} ::= SEQUENCE { x Item }", "Item ::= OCTET STRING", "Wrapped ::= Aw {BOOLEAN}"], ['Item', 'Wrapped']),
+    ("a dummy type reference of an unused template", ["Wrapper {Item} ::= SEQUENCE OF Item", "Item ::= OCTET STRING", "Other ::= NULL"], ['Item', 'Other']),
+    ("two dummy references", ["Pair {Item, INTEGER: limit} ::= SEQUENCE (SIZE (0..limit)) OF Item", "Item ::= BOOLEAN", "limit INTEGER ::= 3", "Pp ::= Pair {NULL, 9}"], ['Item', 'limit', 'Pp']),
+    ("a named number", ["Level ::= INTEGER { lo(1), hi(9) } (lo..hi)", "lo INTEGER ::= 3", "Other ::= BOOLEAN"], ['Level', 'lo', 'Other']),
+    ("an enumeral", ["Colour ::= ENUMERATED { red, green }", "red BOOLEAN ::= TRUE", "dflt Colour ::= green"], ['Colour', 'red', 'dflt']),
+    ("a component identifier", ["Rec ::= SEQUENCE { item BOOLEAN, other INTEGER DEFAULT 4 }", "item INTEGER ::= 2", "other BOOLEAN ::= FALSE"], ['Rec', 'item', 'other']),
+    ("a named bit", ["Flags ::= BIT STRING { up(0), down(1) }", "up INTEGER ::= 1", "vv Flags ::= { up }"], ['Flags', 'up', 'vv']),
+]
+for _l, _d, _k in LOCAL_NAME_CLASHES:
+    for _n in _k:
+        MANGLED.setdefault(_n, _n.upper() if _n[0].islower() else _n)
 
 
 BASE_CACHE = {}
